@@ -71,6 +71,10 @@ func (r *chunkReader) Read(p []byte) (int, error) {
 	copy(p, r.b[:n])
 	r.b = r.b[n:]
 	r.given += n
+	if r.fail > 0 && r.given >= r.fail && r.eofData {
+		// the failure arrives together with the last bytes delivered (as EOF does in this mode)
+		return n, errBoom
+	}
 	if r.eofData && len(r.b) == 0 {
 		return n, io.EOF
 	}
